@@ -4,7 +4,7 @@
 From Coq Require Import ZArith Reals List Lra Lia.
 From Coquelicot Require Import Coquelicot.
 From FF Require Import Base.Ops Inst.RInst Inst.Param Base.RAlg Model.Numeric Model.SecondOrder Model.Consts
-     Model.Tie.C10 Proofs.Foi Proofs.SecondOrder Proofs.SecondOrderAsm Proofs.SecondOrderBound Proofs.SecondOrderInt Proofs.SecondOrderGlue Proofs.SecondOrderTrace Proofs.SecondOrderHerm Proofs.SecondOrderEncl Proofs.CMBase Corr.ObsC10.
+     Model.Tie.C10 Proofs.Foi Proofs.SecondOrder Proofs.SecondOrderAsm Proofs.SecondOrderBound Proofs.SecondOrderInt Proofs.SecondOrderGlue Proofs.SecondOrderF2Bound Proofs.SecondOrderTrace Proofs.SecondOrderHerm Proofs.SecondOrderEncl Proofs.CMBase Corr.ObsC10.
 Import ListNotations.
 Local Open Scope R_scope.
 
@@ -142,6 +142,45 @@ Theorem C10_F2_assembly : forall d thr thr2 omega basis nopers evs Vs Qs ncoeffs
     is_CInt (fun t => cmul' (cmul' (cexp' (- w * t)) (Bpw d a k segs 0 t)) (Gam t)) 0 tau (a5get RO F2 a b k l o).
 Proof. exact F2_assembly. Qed.
 Print Assumptions C10_F2_assembly.
+
+(* Without any condition on the second-order denominators: the code's model (threshold thr2) against the
+   exact-selection model (thr2 = 0), and hence against the double integral, within
+   F2_eps = sum_g 2 thr2 dt_g^2 (1/2 + thr2/4) A_g[a,k] A_g[b,l],  A_g[a,k] = sum_ij |X^g_ak(i,j)|. *)
+Theorem C10_F2_bound : forall d thr thr2 omega basis nopers evs Vs Qs ncoeffs dts ts a b k l o,
+  0 <= thr2 ->
+  length evs = length dts -> length Vs = length dts ->
+  (length dts <= length Qs)%nat -> (length dts <= length ts)%nat -> length ncoeffs = length nopers ->
+  (forall dt, In dt dts -> 0 <= dt) ->
+  (a < length nopers)%nat -> (b < length nopers)%nat -> (k < length basis)%nat -> (l < length basis)%nat ->
+  (o < length omega)%nat ->
+  let segs := fresh_segs d thr omega basis nopers evs Vs Qs ts dts (transpose_coeffs RO (length dts) ncoeffs) in
+  Cmod (csub' (a5get RO (second_order_ff RO d thr thr2 evs Vs Qs omega basis nopers ncoeffs dts ts (None, None)) a b k l o)
+              (a5get RO (second_order_ff RO d thr 0 evs Vs Qs omega basis nopers ncoeffs dts ts (None, None)) a b k l o))
+  <= F2_eps d thr2 a b k l segs.
+Proof. exact F2_bound. Qed.
+Print Assumptions C10_F2_bound.
+
+Theorem C10_F2_near_integral : forall d thr thr2 omega basis nopers evs Vs Qs ncoeffs dts a b k l o,
+  0 <= thr2 -> 0 <= thr ->
+  (forall N, In N nopers -> fherm d (toF N)) -> (forall Ck, In Ck basis -> fherm d (toF Ck)) ->
+  length evs = length dts -> length Vs = length dts -> (length dts <= length Qs)%nat ->
+  length ncoeffs = length nopers ->
+  (forall dt, In dt dts -> 0 <= dt) ->
+  (a < length nopers)%nat -> (b < length nopers)%nat -> (k < length basis)%nat -> (l < length basis)%nat ->
+  (o < length omega)%nat ->
+  no_taylor d omega thr evs dts o ->
+  let ts := times RO dts in
+  let segs := fresh_segs d thr omega basis nopers evs Vs Qs ts dts (transpose_coeffs RO (length dts) ncoeffs) in
+  let w := vg RO omega o in
+  let tau := sumlist RO dts in
+  let F2 := second_order_ff RO d thr thr2 evs Vs Qs omega basis nopers ncoeffs dts ts (None, None) in
+  exists (Gam : R -> Cx) (z : Cx),
+    (forall t, 0 <= t <= tau ->
+       is_CInt (fun t' => cmul' (cexp' (w * t')) (Bpw d b l segs 0 t')) 0 t (Gam t)) /\
+    is_CInt (fun t => cmul' (cmul' (cexp' (- w * t)) (Bpw d a k segs 0 t)) (Gam t)) 0 tau z /\
+    Cmod (csub' (a5get RO F2 a b k l o) z) <= F2_eps d thr2 a b k l segs.
+Proof. exact F2_near_integral. Qed.
+Print Assumptions C10_F2_near_integral.
 
 (* The time-domain control matrix of the statements above in trace form:
    beta_ak(u) = s_a tr( U(u)^dagger N_a U(u) C_k ), U(u) = V e^{-iDu} V^dagger Q (no unitarity assumed). *)
